@@ -865,24 +865,27 @@ class TaskScenario(ScenarioData):
             else:
                 precise_end = self.project["start"]
 
-        # Release unused portion of the slot back to the resource
-        seconds_unused = booked_seconds - seconds_into_slot
-        if seconds_unused > 0 and resource:
-            res_scenario = resource.data[self.scenarioIdx] if resource.data else None
-            if res_scenario:
-                # Update the per-task usage record to reflect actual usage
-                if self.currentSlotIdx in res_scenario.slotTaskUsage:
-                    # Find and update this task's entry
-                    for i, (task, _secs) in enumerate(res_scenario.slotTaskUsage[self.currentSlotIdx]):
-                        if task == self.property:
-                            res_scenario.slotTaskUsage[self.currentSlotIdx][i] = (task, seconds_into_slot)
-                            break
-
-                # Update total slotSecondsUsed to release unused time
-                # Old value was full slot duration, new value is actual usage
-                old_total = res_scenario.slotSecondsUsed.get(self.currentSlotIdx, slot_duration_seconds)
-                # Subtract what was previously booked (full slot) and add actual usage
-                res_scenario.slotSecondsUsed[self.currentSlotIdx] = old_total - booked_seconds + seconds_into_slot
+        # Release unused portion of the slot back to the resource(s). The members of a team
+        # allocation work the same instants, so every member gives back its unused tail,
+        # not only the member that happened to be booked last.
+        team = list(getattr(self, "_selectedResources", None) or [])
+        if resource and resource not in team:
+            team.append(resource)
+        for member in team:
+            res_scenario = member.data[self.scenarioIdx] if member.data else None
+            if not res_scenario:
+                continue
+            entries = res_scenario.slotTaskUsage.get(self.currentSlotIdx, [])
+            for i, (task, secs) in enumerate(entries):
+                if task == self.property:
+                    kept = min(secs, seconds_into_slot)
+                    if secs - kept > 0:
+                        # Update the per-task usage record to reflect actual usage
+                        entries[i] = (task, kept)
+                        # Give back exactly what this booking does not need
+                        old_total = res_scenario.slotSecondsUsed.get(self.currentSlotIdx, secs)
+                        res_scenario.slotSecondsUsed[self.currentSlotIdx] = old_total - secs + kept
+                    break
 
         return precise_end, seconds_into_slot
 
